@@ -412,10 +412,100 @@ def enum_orders(tier):
         yield from mk(2, ('R', 'E', 'T', 'D'))
 
 
+def enum_resend(tier):
+    for reply in ('in-time', 'late', 'error-in-time'):
+        for t2 in (5, None):
+            for extra in (0, 2):
+                yield {'reply': reply, 'timeout2': t2, 'other_calls': extra}
+
+
+def run_resend(case):
+    """A call times out and its errback sends the very same message object again (a retry keeps its serial): the second
+    attempt is an outstanding call like any other - it completes with its own reply, or with its own deadline."""
+    from twisted.python.failure import Failure
+    from txdbus import error as E
+    from txdbus import message as MSG
+    try:
+        rig = N.ClientRig(unix=False)
+    except N.RigFailure as e:
+        return [Disc('establish.hello-call-not-completed', str(e))]
+    out = []
+    try:
+        rig.sent_messages()
+        others = []
+        for i in range(case['other_calls']):
+            r = []
+            rig.conn.callRemote('/o', 'Other', interface='a.b', destination='c.d', timeout=50).addBoth(r.append)
+            others.append(r)
+        mcall = MSG.MethodCallMessage('/o', 'M', interface='a.b', destination='c.d')
+        first, second = [], []
+
+        def retry(f):
+            first.append(f)
+            d2 = rig.conn.callRemoteMessage(mcall, case['timeout2'])
+            d2.addBoth(second.append)
+        rig.conn.callRemoteMessage(mcall, 2).addErrback(retry)
+        try:
+            rig.clock.advance(3)
+        except Exception as e:
+            return [Disc(exc_key(e, 'resend.timeout-raises'), exc_detail(e))]
+        if len(first) != 1 or not first[0].check(E.TimeOut):
+            return [Disc('resend.first-attempt', repr(first))]
+        rig.sent_messages()
+        serial = mcall.serial
+        want = None
+        try:
+            if case['reply'] == 'in-time':
+                N.deliver(rig.conn, R.encode_message(2, 900, {5: serial}, 's', ['done']))
+                want = 'done'
+            elif case['reply'] == 'error-in-time':
+                N.deliver(rig.conn, R.encode_message(3, 900, {5: serial, 4: 'org.verif.Error.E'}, 's', ['no']))
+                want = E.RemoteError
+            else:
+                rig.clock.advance((case['timeout2'] or 1) + 1)
+                want = E.TimeOut if case['timeout2'] else None
+                N.deliver(rig.conn, R.encode_message(2, 900, {5: serial}, 's', ['late']))
+                if case['timeout2'] is None:
+                    want = 'late'
+            rig.clock.advance(1000)
+        except Exception as e:
+            out.append(Disc(exc_key(e, 'resend.raises'), exc_detail(e)))
+        if out:
+            pass
+        elif len(second) != 1:
+            out.append(Disc('resend.second-attempt-count:%d' % min(len(second), 2), 'case %r: %r' % (case, second)))
+        elif isinstance(want, str):
+            # callRemoteMessage hands back the reply message itself (callRemote would unwrap it)
+            got = getattr(second[0], 'body', second[0])
+            if got != [want]:
+                out.append(Disc('resend.second-attempt-value', 'expected a reply carrying %r got %r' % (want, second[0])))
+        elif want is not None and not (isinstance(second[0], Failure) and second[0].check(want)):
+            out.append(Disc('resend.second-attempt-outcome', 'expected %s got %r' % (want.__name__, second[0])))
+        if rig.transport.disconnected:
+            out.append(Disc('resend.connection-dropped', ''))
+        left = [dc for dc in rig.clock.getDelayedCalls()]
+        if left:
+            out.append(Disc('resend.timers-left', repr(left)))
+        table = getattr(rig.conn, '_pendingCalls', None)
+        if table is not None and serial in table:
+            out.append(Disc('resend.bookkeeping-left', 'serial %d still registered' % serial))
+        for r in others:
+            if not (len(r) == 1 and isinstance(r[0], Failure) and r[0].check(E.TimeOut)):
+                out.append(Disc('resend.other-call', repr(r)))
+    except Exception as e:
+        out.append(Disc(exc_key(e, 'resend.exception'), exc_detail(e)))
+    finally:
+        rig.close_rig()
+    return out
+
+
 SUBCHECKS = [
     Subcheck('random', run_history, classify_history, strategy=lambda tier: history(tier),
              n={'quick': 300, 'thorough': 3000}),
     Subcheck('orders', run_history, classify_history, enumerate=enum_orders, shards={'quick': 4, 'thorough': 16},
              exhaustive_note='every ordering of {reply_i, error_i, deadline_i} for 2 calls, of {reply|error_i, deadline_i} '
                              'for 3 calls (quick); of all three event kinds for 3 calls = 362880 orders (thorough)'),
+    Subcheck('resend', run_resend, lambda c: (True, ['reply_' + c['reply']]), enumerate=enum_resend, shards={'quick': 1, 'thorough': 1},
+             exhaustive_note='a timed-out call whose errback re-sends the same message object: second attempt answered in time '
+                             '/ by an error / too late, with or without a second deadline, alone or next to other calls'),
 ]
